@@ -50,7 +50,7 @@ def spec(tier, seed):
     # strip on symbolic names (the bytes that are left, against the bytewise reference): shared with C16.  The unsafe-name
     # check on a *symbolic* name (Components::any over symbolic bytes) exceeds 8 GB already for 3 bytes; it is decided
     # as a decision table over MIR plus concrete names below.
-    for (L, st, ow) in ([(3, 1, False), (4, 1, True)] if q else [(L, st, ow) for L in (3, 4) for st in (0, 1, 2) for ow in (False, True)]):
+    for (L, st, ow) in ([(3, 1, False), (3, 2, True)] if q else [(L, st, ow) for L in (3, 4) for st in (0, 1, 2) for ow in (False, True)]):
         inst.append(strip_inst("c16", L, st, ow, "C19/C16 strip leaves exactly the bytes after the first N components"))
     for nm, old, newn, strip, expect in NAME_PAIRS:
         def lit(x):
@@ -69,7 +69,7 @@ def spec(tier, seed):
         "functions": ["FilePatch::strip", "FilePatch::unsafe_filename", "parse_patch (strip -> unsafe_filename -> Err)", "std::path::Path::components (real)"],
         "symbolic": "strip: every byte of the file name over the alphabet {a, ., /} (all arrangements of separators, '.', '..', leading '/'), Borrowed and Owned names, strip level from the matrix; "
                     "component classification: the component kind (MIR); refusal wiring: concrete patch texts",
-        "bounds": {"name_bytes": "<= 4", "strip": "0..2", "concrete_name_pairs": len(NAME_PAIRS)},
+        "bounds": {"name_bytes": "3 (quick), <= 4 (thorough)", "strip": "0..2", "concrete_name_pairs": len(NAME_PAIRS)},
         "assumptions": ["the file-name lemma of C01 (parse_filename: bytes in = bytes out, quoted or not) carries every spelling of a name to the same bytes",
                         "a name is dangerous iff, after dropping N leading components, a '..' or root component is left (then base_dir.join(name) is not a lexical extension of base_dir)",
                         "symbolic links inside the tree are outside (GNU patch follows them as well unless told otherwise)"],
